@@ -20,6 +20,13 @@
                          `parse` rejects: non-finite floats do not round-trip
     nonZeroUnsignedIsValidI64
                          `is_valid` of NonZeroU* tests `is_i64()` instead of `is_u64()`
+    intValidatorOfFirstRegistered
+                         all twenty integer scalars register the GraphQL name `Int`, the registry
+                         keeps the `is_valid` of whichever Rust type registered first
+                         (`Registry::create_type`: an existing name is left alone), and the pinned
+                         validators differ (`is_i64()` for the signed, `is_u64()` for the unsigned
+                         types): a position of another integer type is validated with the wrong
+                         64-bit view (section "through a schema")
 -/
 import AGV.Gen.IntScalars
 import AGV.Spec.Scalars
@@ -32,6 +39,7 @@ structure Defects where
   idRejectsLargeUint : Bool := false
   nonFiniteToNull : Bool := false
   nonZeroUnsignedIsValidI64 : Bool := false
+  intValidatorOfFirstRegistered : Bool := false
   deriving DecidableEq, Repr
 
 def Defects.none : Defects := {}
@@ -67,6 +75,11 @@ def readable : Acc → Int → Prop
 instance (a : Acc) (i : Int) : Decidable (readable a i) := by
   cases a <;> unfold readable <;> infer_instance
 
+/-- `readable` as a Boolean test -/
+def readableB : Acc → Int → Bool
+  | .i64, i => decide (i64Min ≤ i) && decide (i ≤ i64Max)
+  | .u64, i => decide (0 ≤ i) && decide (i ≤ u64Max)
+
 def cmpHolds : Cmp → Int → Int → Bool
   | .lt, a, b => a < b
   | .gt, a, b => a > b
@@ -98,14 +111,13 @@ def parseInt (t : Entry) : GValue → Res Int
 def toValueInt (t : Entry) (r : Int) : GValue :=
   .int (wrap ⟨64, t.toValueAs = .i64⟩ r)
 
-/-- `is_valid` (used by the validation rules before `parse` is ever called) -/
+/-- `is_valid` (used by the validation rules before `parse` is ever called): the disjunction of
+    `is_i64()` / `is_u64()` tests the source has (`isValid`, `isValidOr`) -/
 def isValidInt (D : Defects) (t : Entry) : GValue → Bool
   | .int i =>
-    -- NonZeroU*: pinned `is_i64()`, repaired `is_u64()` (independent of the extracted field, so
-    -- that the statements about either variant hold before and after the repair)
-    let p := if t.nonZero ∧ t.accessor = .u64
-      then (if D.nonZeroUnsignedIsValidI64 then Acc.i64 else Acc.u64) else t.isValid
-    decide (readable p i)
+    -- NonZeroU*: the pinned tree tested `is_i64()` (finding C07-nonzero-unsigned-isvalid-i64)
+    if t.nonZero = true ∧ t.accessor = .u64 ∧ D.nonZeroUnsignedIsValidI64 = true then readableB .i64 i
+    else readableB t.isValid i || t.isValidOr.any (fun a => readableB a i)
   | _ => false
 
 -- ------------------------------------------------------------------ floats (bit patterns)
@@ -266,5 +278,61 @@ def isValid (D : Defects) : Ty → GValue → Option Bool
       | .str _ => true
       | _ => false)
   | .enum _, _ => none
+
+-- ------------------------------------------------------------------ through a schema
+
+/-  An argument of integer type `t` reached through a schema (static or dynamic, or any
+    `Registry`): the validation rule ArgumentsOfCorrectType (literals and variable values alike;
+    DefaultValuesOfCorrectType for variable defaults) calls `is_valid_input_value`, which applies
+    the `is_valid` closure stored in the registry under the GraphQL name of the position's type —
+    `Int` for all twenty integer scalars.  `Registry::create_type` stores a type only when the name
+    is new: the closure is the one of the Rust type REGISTERED FIRST under `Int`
+    (`order` = the Rust integer types in the order of their registration; a `Schema` registers
+    `add_system_types`' `i32` before any user type).  What passes validation reaches
+    `<t as ScalarType>::parse` in the resolver.  -/
+
+inductive Stage where
+  | validation | execution
+  deriving DecidableEq, Repr
+
+inductive SRes where
+  | accepted (r : Int)
+  | rejected (s : Stage)
+  | crash
+  deriving DecidableEq, Repr
+
+/-- `is_valid` of the pinned tree: the same 64-bit view `parse` asks for -/
+def pinnedValidInt (t : Entry) : GValue → Bool
+  | .int i => readableB t.accessor i
+  | _ => false
+
+/-- the validation pre-check applied to a value at a position of type `t`.
+    Pinned (toggle on): the pinned `is_valid` of the first registered integer type;
+    repaired (toggle off): the position's own type decides (its `is_valid` as the source has it) -/
+def schemaValid (D : Defects) (order : List Entry) (t : Entry) (v : GValue) : Bool :=
+  if D.intValidatorOfFirstRegistered then pinnedValidInt (order.headD t) v else isValidInt D t v
+
+/-- answer to a request that offers `v` to an argument of type `t` -/
+def schemaAnswer (D : Defects) (order : List Entry) (t : Entry) (v : GValue) : SRes :=
+  if schemaValid D order t v = false then .rejected .validation
+  else match parseInt t v with
+    | .ok r => .accepted r
+    | .err _ => .rejected .execution
+    | .panic => .crash
+
+/-- what probing a validator with -1 and 2^63 tells -/
+inductive VClass where
+  | i64 | u64 | any | other
+  deriving DecidableEq, Repr
+
+def classOfProbes : Bool → Bool → VClass
+  | true, false => .i64
+  | false, true => .u64
+  | true, true => .any
+  | false, false => .other
+
+/-- class of the validator `schemaValid` uses -/
+def schemaValidatorClass (D : Defects) (order : List Entry) (t : Entry) : VClass :=
+  classOfProbes (schemaValid D order t (.int (-1))) (schemaValid D order t (.int 9223372036854775808))
 
 end AGV.Model.Scalars
